@@ -23,8 +23,19 @@ RULE = ("TOTAL: one corpus covering every public operation (parsers on valid/mal
 
 
 def corpus(rng, tier):
+    """thorough = three independently seeded quick-sized corpora (the model costs ~130 us per input byte and C07 evaluates it
+    once per configuration, so the multi-10-kB inputs of the generator suites' own thorough tiers are not repeated here)"""
+    if tier != "quick":
+        out = []
+        for k in range(3):
+            out += _corpus(rng.fork("part%d" % k), "quick", dense=True)
+        return out
+    return _corpus(rng, "quick", dense=False)
+
+
+def _corpus(rng, tier, dense):
     cases = []
-    q = tier == "quick"
+    q = not dense
     cases += suites.hex_roundtrip_cases(rng.fork("rt"), tier)[::(2 if q else 1)]
     cases += suites.hex_malformed_cases(rng.fork("mal"), tier)[::(6 if q else 1)]
     cases += suites.hex_buffer_cases(rng.fork("buf"), tier)[::(2 if q else 1)]
